@@ -547,6 +547,132 @@ def analyse(f, field_ids, field_types, fresh, struct_ptr_names):
     for st_ in stores:
         # the old value is destroyed somewhere in this function (directly or through a temporary)
         st_['destroyedFirst'] = st_['op'] == '=' and (st_['base'], st_['field']) in destroyed
+    # ---- save / restore brackets: fields that this function puts back on EVERY path to a return.
+    # A small walk over the structured body with four states per path: U (no store to the field by this
+    # function and no call on the object yet), C (no own store, but the object was passed to a call),
+    # R (the last own store put the saved entry value back and the object was not passed on since),
+    # O (anything else).  The field is bracketed iff the local was saved in state U and every path
+    # reaches its return in U or R.  goto / switch with relevant effects: not bracketed (conservative).
+    def passes_object(call):
+        for a in call['inner'][1:]:
+            a0 = strip(a)
+            if a0.get('kind') == 'DeclRefExpr' and f.param_ids.get(a0['referencedDecl'].get('id')) == 0:
+                return True
+        return False
+
+    def bracketed(fld):
+        key = ('param0', fld)
+        vids = {vid for vid, k_ in saved.items() if k_ == key and holds_entry_value(vid, key)}
+        if not vids:
+            return False
+        ok = [True]
+        rets = set()
+
+        def is_save_rhs(e):
+            m_ = member_of(e)
+            return m_ is not None and (base_of(f, m_, fresh), field_ids[m_['referencedMemberDecl']]) == key
+
+        def expr(n, st):
+            """states after evaluating expression / declaration n"""
+            k = n.get('kind')
+            if k in ('GotoStmt', 'SwitchStmt', 'LabelStmt', 'IndirectGotoStmt'):
+                ok[0] = False
+                return st
+            if k == 'VarDecl':
+                ini = [c for c in n.get('inner', []) if isinstance(c, dict) and 'kind' in c]
+                if n.get('init') and ini:
+                    st = expr(ini[-1], st)
+                    if n['id'] in vids and is_save_rhs(ini[-1]) and st != {'U'}:
+                        ok[0] = False
+                return st
+            if k == 'BinaryOperator' and n.get('opcode') in ('&&', '||'):
+                st = expr(n['inner'][0], st)
+                return st | expr(n['inner'][1], st)
+            if k == 'ConditionalOperator':
+                st = expr(n['inner'][0], st)
+                return expr(n['inner'][1], st) | expr(n['inner'][2], st)
+            if k == 'BinaryOperator' and n.get('opcode') == '=':
+                l0 = strip(n['inner'][0])
+                st = expr(n['inner'][1], st)
+                m_ = member_of(n['inner'][0])
+                if m_ is not None and (base_of(f, m_, fresh), field_ids[m_['referencedMemberDecl']]) == key:
+                    r0 = strip(n['inner'][1])
+                    if r0.get('kind') == 'DeclRefExpr' and r0['referencedDecl'].get('id') in vids:
+                        return {'R'}
+                    return {'O'}
+                if l0.get('kind') == 'DeclRefExpr' and l0['referencedDecl'].get('id') in vids:
+                    if is_save_rhs(n['inner'][1]) and st != {'U'}:
+                        ok[0] = False
+                    return st
+                return expr(n['inner'][0], st)
+            m_ = member_of(n) if k == 'MemberExpr' else None
+            if k in ('CompoundAssignOperator', 'UnaryOperator') and n.get('opcode') in ('++', '--', '&', '+=', '-=', '*=', '/=', '|=', '&=', '^=', '<<=', '>>=', '%='):
+                m2 = member_of(n['inner'][0])
+                if m2 is not None and (base_of(f, m2, fresh), field_ids[m2['referencedMemberDecl']]) == key:
+                    for c in n['inner'][1:]:
+                        st = expr(c, st)
+                    return {'O'}
+            if k == 'CallExpr':
+                for c in n['inner'][1:]:
+                    st = expr(c, st)
+                if passes_object(n):
+                    st = {{'U': 'C', 'R': 'O'}.get(x, x) for x in st}
+                return st
+            for c in n.get('inner', []):
+                if isinstance(c, dict) and 'kind' in c:
+                    st = expr(c, st)
+            return st
+
+        def stmt(n, st):
+            """states with which control falls through statement n"""
+            if not st:
+                return st
+            k = n.get('kind')
+            if k == 'CompoundStmt':
+                for c in n.get('inner', []):
+                    if isinstance(c, dict) and 'kind' in c:
+                        st = stmt(c, st)
+                return st
+            if k == 'ReturnStmt':
+                for c in n.get('inner', []):
+                    if isinstance(c, dict) and 'kind' in c:
+                        st = expr(c, st)
+                rets.update(st)
+                return set()
+            if k == 'IfStmt':
+                parts = [c for c in n.get('inner', []) if isinstance(c, dict) and 'kind' in c]
+                st = expr(parts[0], st)
+                out = stmt(parts[1], st)
+                out = out | (stmt(parts[2], st) if len(parts) > 2 else st)
+                return out
+            if k in ('WhileStmt', 'ForStmt', 'DoStmt'):
+                parts = [c for c in n.get('inner', []) if isinstance(c, dict) and 'kind' in c]
+                cur_ = set(st)
+                for _ in range(6):
+                    nxt = set(cur_)
+                    x = cur_
+                    for c in parts:
+                        x = stmt(c, x) if c.get('kind') in ('CompoundStmt', 'IfStmt', 'ReturnStmt', 'WhileStmt', 'ForStmt', 'DoStmt') else expr(c, x)
+                    nxt |= x
+                    if nxt == cur_:
+                        break
+                    cur_ = nxt
+                return cur_
+            if k in ('BreakStmt', 'ContinueStmt'):
+                return st      # over-approximation: the states also flow on
+            if k == 'DeclStmt':
+                for c in n.get('inner', []):
+                    if isinstance(c, dict) and 'kind' in c:
+                        st = expr(c, st)
+                return st
+            return expr(n, st)
+
+        end = stmt(f.body, {'U'})
+        rets.update(end)
+        return ok[0] and rets <= {'U', 'R'} and 'R' in rets
+
+    brackets = sorted({s_['field'] for s_ in stores if s_['base'] == 'param0' and s_['value'] == 'saved:' + s_['field']
+                       and bracketed(s_['field'])})
     # whole-object stores: struct assignment `*obj = ...`
     def whole_assign(n):
         if n.get('kind') == 'BinaryOperator' and n.get('opcode') == '=':
@@ -557,7 +683,7 @@ def analyse(f, field_ids, field_types, fresh, struct_ptr_names):
             if isinstance(c, dict) and 'kind' in c:
                 whole_assign(c)
     whole_assign(f.body)
-    return stores, whole, sorted({fld for (_b, fld) in destroyed}), sorted(set(obj_calls))
+    return stores, whole, sorted({fld for (_b, fld) in destroyed}), sorted(set(obj_calls)), brackets
 
 
 def collect(repo, builddir):
@@ -594,10 +720,11 @@ def collect(repo, builddir):
         finfo = []
         for name in sorted(fns, key=lambda n: fns[n].node['loc'].get('offset', 0) if 'offset' in fns[n].node.get('loc', {}) else 0):
             f = fns[name]
-            stores, whole, destroys, obj_calls = analyse(f, field_ids, field_types, fresh, ptr_names)
+            stores, whole, destroys, obj_calls, brackets = analyse(f, field_ids, field_types, fresh, ptr_names)
             first_is_obj = bool(f.params) and any(f.params[0]['type']['qualType'].replace('const ', '') == p for p in ptr_names)
             finfo.append(dict(name=name, public=f.public, firstParamIsObj=first_is_obj, stores=stores,
-                              calls=sorted(set(f.calls)), whole=sorted(set(whole)), destroys=destroys, objCalls=obj_calls))
+                              calls=sorted(set(f.calls)), whole=sorted(set(whole)), destroys=destroys, objCalls=obj_calls,
+                              brackets=brackets))
         res[oname] = dict(struct=struct, file=cfile, fields=[(n, t) for n, t, _ in fields], create=create,
                           reinit=reinit, destroy=destroy, fns=finfo,
                           freshFns=sorted(n for n in fresh if n in fns))
@@ -630,7 +757,10 @@ def gen_fields(facts):
          '    `Fn.wholeObject`: memset/memcpy/struct assignment over the whole object (writes every field).',
          '    `Fn.destroys`: fields handed to a `*_destroy`/`*_free` call.',
          '    `Fn.objCalls`: (callee, root of the first argument) for calls whose first argument is an object',
-         '    of this struct; roots as for `base`. -/',
+         '    of this struct; roots as for `base`.',
+         '    `Fn.brackets`: fields of the first parameter that the function saves on entry (before it stores to',
+         '    them or passes the object on) and puts back on EVERY path to a return, with nothing done to the',
+         '    object after the restoring store (walk over the structured body; goto/switch: never listed). -/',
          'structure Store where',
          '  field : String', '  base : String', '  op : String', '  value : String', '  vkind : String',
          '  cond : Bool', '  destroyedFirst : Bool',
@@ -638,6 +768,7 @@ def gen_fields(facts):
          'structure Fn where',
          '  name : String', '  isPublic : Bool', '  firstParamIsObj : Bool',
          '  stores : List Store', '  calls : List String', '  wholeObject : List String', '  destroys : List String', '  objCalls : List (String × String)',
+         '  brackets : List String',
          '  deriving DecidableEq, Repr, Inhabited', '',
          'structure Obj where',
          '  struct : String', '  file : String',
@@ -663,7 +794,8 @@ def gen_fields(facts):
             o.append('    calls := [' + ', '.join(lstr(c) for c in f['calls']) + '],')
             o.append('    wholeObject := [' + ', '.join(lstr(c) for c in f['whole']) + '],')
             o.append('    destroys := [' + ', '.join(lstr(c) for c in f['destroys']) + '],')
-            o.append('    objCalls := [' + ', '.join(f'({lstr(c)}, {lstr(r)})' for c, r in f['objCalls']) + '] }')
+            o.append('    objCalls := [' + ', '.join(f'({lstr(c)}, {lstr(r)})' for c, r in f['objCalls']) + '],')
+            o.append('    brackets := [' + ', '.join(lstr(c) for c in f['brackets']) + '] }')
         o.append('')
         o.append(f'/-- `struct {d["struct"]}` of src/{d["file"]} and every function of that file. -/')
         o.append(f'def {oname} : Obj :=')
